@@ -4,6 +4,7 @@ CONSTANTS
   Addrs = {1, 2, 3}
   KeyHoldsRef = TRUE
   FullBoots = FALSE
+  Points <- PointsAll
 SPECIFICATION SpecCache
 CHECK_DEADLOCK FALSE
 INVARIANT L_CacheCoherent
